@@ -528,3 +528,5 @@ for w in ["u8", "u16", "u32", "u64", "u128"]:
     K("C10.K.small.crc_" + w, C10M, "verif_c10::small_" + w, {"C10": "D"},
       fns=["postcard::ser::flavors::crc::to_slice_" + w, "postcard::de::flavors::crc::take_from_bytes_" + w, "postcard::ser::flavors::crc::CrcModifier::finalize", "postcard::de::flavors::crc::CrcModifier::finalize"],
       note="EVERY width in the quick tier on a one-byte probe: frame == plain ++ LE(bitwise reference CRC), round trip, any corruption of any checksum byte -> BadCrc, truncated checksum rejected")
+K("C01.K.variant_index", DEC, "verif_c04d::variant_index_contract", {"C01": "D", "C03": "D"}, fns=["postcard::de::deserializer::<impl EnumAccess for &mut Deserializer<F>>::variant_seed"],
+  note="EVERY byte string <= 7: the variant index handed to serde, bytes consumed and error kind == varint(u32) wire-format decoder (indices >= 128, padded, u32::MAX)")
